@@ -264,24 +264,19 @@ theorem strategyResp_addr_recv (c : Cfg) (r : Resp) :
   simp only [strategyResp]
   cases r.kind <;> simp
 
-/-- **End to end, receive side.**  The tracer has run its send step (`hsend`; ICMP or UDP).  The
-receive socket is readable and delivers `bytes` which the family's receive code decodes to a
-response `w` that is `Accepted` for the probe `p` — the conclusion of every C02 theorem for a
-conforming quotation of the bytes dispatched for `p` — and `p` is still awaiting its first answer.
-Then: `recv_probe` returns `w`; the strategy completes exactly `p`'s slot with the responder's
-address (`addrNat w.addr`), the receive time (the clock after the wait) and the response's kind,
-and leaves every other slot alone; and if this very iteration publishes the round, the published
-round reports `p` complete with those data. -/
-theorem datagram_completes_probe {F : Type} [Agg.Num F] {c : Cfg} (hc : CfgOk c) {st : St F}
+/-- **End to end, receive side (core).**  The tracer has run its send step (`hsend`) and
+`recv_probe` returns the response `w` (`hrecv`), which is `Accepted` for the probe `p` still awaiting
+its first answer.  Then the strategy completes exactly `p`'s slot with the responder's address
+(`addrNat w.addr`), the receive time (the clock after the wait) and the response's kind, leaves every
+other slot alone, and if this very iteration publishes the round, the published round reports `p`
+complete with those data. -/
+theorem response_completes_probe {F : Type} [Agg.Num F] {c : Cfg} (hc : CfgOk c) {st : St F}
     (hs : Reach c st.ts) {e : Env} {ch : Chan.Chan} {ts1 : TS} {sent : List (Probe × SendOutcome)}
     {calls : List (List Wire.SockOp)}
-    (hsend : sendRequestS c st.chan st.ts e.injs = .ok (ch, ts1, sent, calls))
-    (hp : st.chan.cfg.proto ≠ .tcp) (hrd : e.recv.readable = .yes) (src bytes : Buf)
-    (hdg : e.recv.dgram = .data src bytes) (w : Wire.WResp)
-    (hw : Wire.recvIcmp st.chan.cfg (bytes.take 1024) src = .ok (some w)) (p : Probe)
+    (hsend : sendRequestS c st.chan st.ts e.injs = .ok (ch, ts1, sent, calls)) (w : Wire.WResp)
+    (hrecv : (Chan.recv (Chan.advance ch e.dt) e.recv).out = .ok (some w)) (p : Probe)
     (hacc : C02.Accepted c (w.toStrat (st.chan.now + e.dt)) p.seq)
     (haw : answered ts1 p.seq = some p) :
-    (Chan.recv (Chan.advance ch e.dt) e.recv).out = .ok (some w) ∧
     (w.toStrat (st.chan.now + e.dt)).addr = Wire.addrNat w.addr ∧
     (w.toStrat (st.chan.now + e.dt)).recv = st.chan.now + e.dt ∧
     ∃ ts2, recvResponse c ts1 e.dt (.resp (w.toStrat (st.chan.now + e.dt))) = .ok ts2 ∧
@@ -300,13 +295,7 @@ theorem datagram_completes_probe {F : Type} [Agg.Num F] {c : Cfg} (hc : CfgOk c)
   have hsr := sendRequestS_ok hsend
   simp only at hsr
   have hi1 : Inv c ts1 := ((sendRequest_spec hc hi _).2 _ _ hsr).1
-  -- what `recv_probe` returns
-  have hrecv : (Chan.recv (Chan.advance ch e.dt) e.recv).out = .ok (some w) := by
-    have hcfg : (Chan.advance ch e.dt).cfg = st.chan.cfg := by simp [Chan.advance, hsame.1]
-    have h1 := (Channel.recv_is_wire_recv (Chan.advance ch e.dt) e.recv).1 (by rw [hcfg]; exact hp)
-    have h2 := (Channel.recv_is_wire_recv (Chan.advance ch e.dt) e.recv).2.1 src bytes hrd hdg
-    rw [h1, h2, hcfg]; exact hw
-  refine ⟨hrecv, by rw [← hresp]; rfl, by rw [← hresp]; rfl, ?_⟩
+  refine ⟨by rw [← hresp]; rfl, by rw [← hresp]; rfl, ?_⟩
   -- the strategy's receive step: the response is genuine for `p`
   obtain ⟨hge, hltseq, _, hround, _, _, hslotp⟩ := answered_props hi1 haw
   have hlen : p.seq - ts1.roundSeq < ts1.buffer.length := by
@@ -361,6 +350,82 @@ theorem datagram_completes_probe {F : Type} [Agg.Num F] {c : Cfg} (hc : CfgOk c)
       cases hit
       exact ⟨rfl, rfl, fun r0 hr0 => by cases hr0⟩
 
+/-- **End to end, receive side, ICMP path.**  For an ICMP or UDP trace: the receive socket is
+readable and delivers `bytes` which the family's receive code decodes to a response `w` that is
+`Accepted` for the probe `p` — the conclusion of every C02 theorem for a conforming quotation of the
+bytes dispatched for `p`.  Then `recv_probe` returns `w` and `response_completes_probe` applies. -/
+theorem datagram_completes_probe {F : Type} [Agg.Num F] {c : Cfg} (hc : CfgOk c) {st : St F}
+    (hs : Reach c st.ts) {e : Env} {ch : Chan.Chan} {ts1 : TS} {sent : List (Probe × SendOutcome)}
+    {calls : List (List Wire.SockOp)}
+    (hsend : sendRequestS c st.chan st.ts e.injs = .ok (ch, ts1, sent, calls))
+    (hp : st.chan.cfg.proto ≠ .tcp) (hrd : e.recv.readable = .yes) (src bytes : Buf)
+    (hdg : e.recv.dgram = .data src bytes) (w : Wire.WResp)
+    (hw : Wire.recvIcmp st.chan.cfg (bytes.take 1024) src = .ok (some w)) (p : Probe)
+    (hacc : C02.Accepted c (w.toStrat (st.chan.now + e.dt)) p.seq)
+    (haw : answered ts1 p.seq = some p) :
+    (Chan.recv (Chan.advance ch e.dt) e.recv).out = .ok (some w) ∧
+    (w.toStrat (st.chan.now + e.dt)).addr = Wire.addrNat w.addr ∧
+    (w.toStrat (st.chan.now + e.dt)).recv = st.chan.now + e.dt ∧
+    ∃ ts2, recvResponse c ts1 e.dt (.resp (w.toStrat (st.chan.now + e.dt))) = .ok ts2 ∧
+      ts2.buffer[p.seq - ts1.roundSeq]? =
+        some (.complete (completeOf c (w.toStrat (st.chan.now + e.dt)) p)) ∧
+      (∀ k, k ≠ p.seq - ts1.roundSeq → ts2.buffer[k]? = ts1.buffer[k]?) ∧
+      ∀ (st' : St F) (o : Out), Stack.iter c st e = .ok (st', o) →
+        o.recv = some w ∧ o.sent = sent ∧
+        ∀ r, o.published = some r →
+          r.probes[p.seq - ts1.roundSeq]? =
+            some (.complete (completeOf c (w.toStrat (st.chan.now + e.dt)) p)) := by
+  have hsame := sendRequestS_chan hsend
+  simp only [SameChan] at hsame
+  have hrecv : (Chan.recv (Chan.advance ch e.dt) e.recv).out = .ok (some w) := by
+    have hcfg : (Chan.advance ch e.dt).cfg = st.chan.cfg := by simp [Chan.advance, hsame.1]
+    have h1 := (Channel.recv_is_wire_recv (Chan.advance ch e.dt) e.recv).1 (by rw [hcfg]; exact hp)
+    have h2 := (Channel.recv_is_wire_recv (Chan.advance ch e.dt) e.recv).2.1 src bytes hrd hdg
+    rw [h1, h2, hcfg]; exact hw
+  exact ⟨hrecv, response_completes_probe (F := F) hc hs hsend w hrecv p hacc haw⟩
+
+/-- **End to end, receive side, TCP handshake.**  For a TCP trace: among the outstanding probes
+that are still young, the first whose socket is writable is `x`, the socket of probe `p` (same
+ports), and it reports connected (peer known), refused, or an ICMP error.  Then `recv_probe` answers
+with a response accepted for exactly `p` (`C02.tcp_handshake`), and `p`'s slot is completed with the
+target's address (or the reporting router's) and the clock after the wait. -/
+theorem handshake_completes_probe {F : Type} [Agg.Num F] {c : Cfg} (hc : CfgOk c) {st : St F}
+    (hs : Reach c st.ts) {e : Env} {ch : Chan.Chan} {ts1 : TS} {sent : List (Probe × SendOutcome)}
+    {calls : List (List Wire.SockOp)}
+    (hsend : sendRequestS c st.chan st.ts e.injs = .ok (ch, ts1, sent, calls))
+    (hcs : C02.Compat st.chan.cfg c) (hp : st.chan.cfg.proto = .tcp)
+    (ts0 : TS) (ttl : Nat) (p : Probe) (hem : C11.emitted c ts0 ttl = .ok p)
+    (haw : answered ts1 p.seq = some p) (x : Chan.TcpEntry × Chan.SockEnv)
+    (hfw : (Chan.firstWritable (Chan.kept (Chan.advance ch e.dt) e.recv)).2.1 = some x)
+    (hports : x.1.srcPort = p.srcPort ∧ x.1.destPort = p.destPort)
+    (hsock : x.2 = .refused ∨ (∃ a, x.2 = .connected (some a)) ∨ (∃ a, x.2 = .unreach a)) :
+    ∃ w, (Chan.recv (Chan.advance ch e.dt) e.recv).out = .ok (some w) ∧
+      ∃ ts2, recvResponse c ts1 e.dt (.resp (w.toStrat (st.chan.now + e.dt))) = .ok ts2 ∧
+        ts2.buffer[p.seq - ts1.roundSeq]? =
+          some (.complete (completeOf c (w.toStrat (st.chan.now + e.dt)) p)) ∧
+        (∀ k, k ≠ p.seq - ts1.roundSeq → ts2.buffer[k]? = ts1.buffer[k]?) ∧
+        ∀ (st' : St F) (o : Out), Stack.iter c st e = .ok (st', o) →
+          ∀ r, o.published = some r →
+            r.probes[p.seq - ts1.roundSeq]? =
+              some (.complete (completeOf c (w.toStrat (st.chan.now + e.dt)) p)) := by
+  have hsame := sendRequestS_chan hsend
+  simp only [SameChan] at hsame
+  have hcfg : (Chan.advance ch e.dt).cfg = st.chan.cfg := by simp [Chan.advance, hsame.1]
+  have ho := (Channel.recv_is_wire_recv (Chan.advance ch e.dt) e.recv).2.2.2 (by rw [hcfg]; exact hp)
+  rw [hfw] at ho; simp only at ho
+  -- what the socket says, as `Wire.recvTcp` sees it
+  obtain ⟨sock, hsk, hto⟩ : ∃ sock : Wire.TcpSock, (sock ≠ .connected none ∧ sock ≠ .other) ∧
+      Chan.tcpOutcome (Chan.advance ch e.dt).cfg x.1 x.2 = Wire.recvTcp st.chan.cfg p.srcPort p.destPort sock := by
+    rcases hsock with h | ⟨a, h⟩ | ⟨a, h⟩
+    · exact ⟨.refused, ⟨by simp, by simp⟩, by rw [h, hcfg, ← hports.1, ← hports.2]; rfl⟩
+    · exact ⟨.connected (some a), ⟨by simp, by simp⟩, by rw [h, hcfg, ← hports.1, ← hports.2]; rfl⟩
+    · exact ⟨.hostUnreachable a, ⟨by simp, by simp⟩, by rw [h, hcfg, ← hports.1, ← hports.2]; rfl⟩
+  obtain ⟨w, hw, hacc, _⟩ := C02.tcp_handshake st.chan.cfg c hcs hp ts0 ttl p hem sock hsk (st.chan.now + e.dt)
+  have hrecv : (Chan.recv (Chan.advance ch e.dt) e.recv).out = .ok (some w) := by
+    rw [ho, hto, hw]
+  obtain ⟨_, _, ts2, h1, h2, h3, h4⟩ := response_completes_probe (F := F) hc hs hsend w hrecv p hacc haw
+  exact ⟨w, hrecv, ts2, h1, h2, h3, fun st' o hit r hr => (h4 st' o hit).2.2 r hr⟩
+
 /-- **ICMP over IPv4, socket to published round** (`datagram_completes_probe` ∘ `C02.icmp_v4`): a
 router or the target returns the Echo Request the tracer dispatched for probe `p` — quoted
 (`quote4`: TOS / total length / TTL / header checksum rewritten, IP header + 8 + `n` octets, any
@@ -402,6 +467,121 @@ theorem icmp_v4_end_to_end {F : Type} [Agg.Num F] {c : Cfg} (hc : CfgOk c) {st :
     (by rw [hp]; simp) hrd src _ hdg w hw' p hacc haw
   refine ⟨w.toStrat (st.chan.now + e.dt), by rw [ha, hwa], hrt, by simpa [Wire.WResp.toStrat] using hwk,
     ts2, h1, h2, h3, fun st' out hit r hr => (h4 st' out hit).2.2 r hr⟩
+
+/-- **Socket to published round, every cell.**  `hC02` is verbatim the conclusion of *every* positive
+C02 theorem (`icmp_v4`, `udp_v4`, `udp_v4_unprivileged`, `tcp_v4`, `icmp_v6`, `udp_v6`,
+`udp_v6_unprivileged`, `tcp_v6`, `echo_reply`) for the datagram `bytes` the receive socket delivers:
+it decodes to a response from `responder` of kind `kind`, accepted for probe `p`.  Then — for an
+ICMP or UDP trace, `p` awaiting its answer, the datagram fitting the receive buffer — `p` and only
+`p` is reported complete with that responder, kind and the clock after the wait, in the tracer state
+and in the round if this iteration publishes it. -/
+theorem socket_to_round {F : Type} [Agg.Num F] {c : Cfg} (hc : CfgOk c) {st : St F}
+    (hs : Reach c st.ts) {e : Env} {ch : Chan.Chan} {ts1 : TS} {sent : List (Probe × SendOutcome)}
+    {calls : List (List Wire.SockOp)}
+    (hsend : sendRequestS c st.chan st.ts e.injs = .ok (ch, ts1, sent, calls))
+    (hp : st.chan.cfg.proto ≠ .tcp) (p : Probe) (haw : answered ts1 p.seq = some p)
+    (src bytes responder : Buf) (kind : RespKind) (hfit : bytes.length ≤ 1024)
+    (hrd : e.recv.readable = .yes) (hdg : e.recv.dgram = .data src bytes)
+    (hC02 : ∃ w, Wire.recvIcmp st.chan.cfg bytes src = .ok (some w) ∧ w.addr = responder ∧ w.kind = kind ∧
+      C02.Accepted c (w.toStrat (st.chan.now + e.dt)) p.seq) :
+    ∃ resp : Resp, resp.addr = Wire.addrNat responder ∧ resp.recv = st.chan.now + e.dt ∧ resp.kind = kind ∧
+      ∃ ts2, recvResponse c ts1 e.dt (.resp resp) = .ok ts2 ∧
+        ts2.buffer[p.seq - ts1.roundSeq]? = some (.complete (completeOf c resp p)) ∧
+        (∀ j, j ≠ p.seq - ts1.roundSeq → ts2.buffer[j]? = ts1.buffer[j]?) ∧
+        ∀ (st' : St F) (out : Out), Stack.iter c st e = .ok (st', out) →
+          ∀ r, out.published = some r →
+            r.probes[p.seq - ts1.roundSeq]? = some (.complete (completeOf c resp p)) := by
+  obtain ⟨w, hw, hwa, hwk, hacc⟩ := hC02
+  have hw' : Wire.recvIcmp st.chan.cfg (bytes.take 1024) src = .ok (some w) := by
+    rw [List.take_of_length_le hfit]; exact hw
+  obtain ⟨_, ha, hrt, ts2, h1, h2, h3, h4⟩ := datagram_completes_probe (F := F) hc hs hsend
+    hp hrd src _ hdg w hw' p hacc haw
+  exact ⟨w.toStrat (st.chan.now + e.dt), by rw [ha, hwa], hrt, by simpa [Wire.WResp.toStrat] using hwk,
+    ts2, h1, h2, h3, fun st' out hit r hr => (h4 st' out hit).2.2 r hr⟩
+
+/-- **UDP over IPv4 (classic, Paris, Dublin; every port direction), socket to published round**
+(`socket_to_round` ∘ `C02.udp_v4`). -/
+theorem udp_v4_end_to_end {F : Type} [Agg.Num F] {c : Cfg} (hc : CfgOk c) {st : St F}
+    (hs : Reach c st.ts) {e : Env} {ch : Chan.Chan} {ts1 : TS} {sent : List (Probe × SendOutcome)}
+    {calls : List (List Wire.SockOp)}
+    (hsend : sendRequestS c st.chan st.ts e.injs = .ok (ch, ts1, sent, calls))
+    (hcs : C02.Compat st.chan.cfg c) (haddr : st.chan.cfg.AddrOk) (hv : st.chan.cfg.v6 = false)
+    (hp : st.chan.cfg.proto = .udp) (hpriv : st.chan.cfg.privileged = true) (hsz : Wire.SizeOk st.chan.cfg)
+    (ts0 : TS) (ttl : Nat) (p : Probe) (hem : C11.emitted c ts0 ttl = .ok p) (hpr : Wire.ProbeOk p)
+    (haw : answered ts1 p.seq = some p)
+    (k : Quote.KernelFill) (d : Buf) (hd : Quote.wireDatagram st.chan.cfg k p = some d)
+    (m : C02.ErrMsg false) (o : Quote.Outer4) (responder src : Buf) (hr : responder.length = 4)
+    (mu : Quote.Mut4) (n : Nat) (hb : Wire.BodyOk false (Quote.quote4 mu d n) m.b)
+    (hfit : (Quote.deliver st.chan.cfg o responder
+        (Quote.icmpMessage false m.h m.b (Quote.quote4 mu d n))).length ≤ 1024)
+    (hrd : e.recv.readable = .yes)
+    (hdg : e.recv.dgram = .data src (Quote.deliver st.chan.cfg o responder
+        (Quote.icmpMessage false m.h m.b (Quote.quote4 mu d n)))) :
+    ∃ resp : Resp, resp.addr = Wire.addrNat responder ∧ resp.recv = st.chan.now + e.dt ∧ resp.kind = m.kind ∧
+      ∃ ts2, recvResponse c ts1 e.dt (.resp resp) = .ok ts2 ∧
+        ts2.buffer[p.seq - ts1.roundSeq]? = some (.complete (completeOf c resp p)) ∧
+        (∀ j, j ≠ p.seq - ts1.roundSeq → ts2.buffer[j]? = ts1.buffer[j]?) ∧
+        ∀ (st' : St F) (out : Out), Stack.iter c st e = .ok (st', out) →
+          ∀ r, out.published = some r →
+            r.probes[p.seq - ts1.roundSeq]? = some (.complete (completeOf c resp p)) :=
+  socket_to_round (F := F) hc hs hsend (by rw [hp]; simp) p haw src _ responder m.kind hfit hrd hdg
+    (C02.udp_v4 st.chan.cfg c hcs haddr hv hp hpriv hsz ts0 ttl p hem hpr k d hd m o responder src hr mu n hb
+      (st.chan.now + e.dt))
+
+/-- **ICMP over IPv6, socket to published round** (`socket_to_round` ∘ `C02.icmp_v6`). -/
+theorem icmp_v6_end_to_end {F : Type} [Agg.Num F] {c : Cfg} (hc : CfgOk c) {st : St F}
+    (hs : Reach c st.ts) {e : Env} {ch : Chan.Chan} {ts1 : TS} {sent : List (Probe × SendOutcome)}
+    {calls : List (List Wire.SockOp)}
+    (hsend : sendRequestS c st.chan st.ts e.injs = .ok (ch, ts1, sent, calls))
+    (hcs : C02.Compat st.chan.cfg c) (haddr : st.chan.cfg.AddrOk) (hv : st.chan.cfg.v6 = true)
+    (hp : st.chan.cfg.proto = .icmp) (hsz : Wire.SizeOk st.chan.cfg)
+    (ts0 : TS) (ttl : Nat) (p : Probe) (hem : C11.emitted c ts0 ttl = .ok p) (hpr : Wire.ProbeOk p)
+    (haw : answered ts1 p.seq = some p)
+    (k : Quote.KernelFill) (d : Buf) (hd : Quote.wireDatagram st.chan.cfg k p = some d)
+    (m : C02.ErrMsg st.chan.cfg.v6) (o : Quote.Outer4) (responder : Buf) (hr : responder.length = 16)
+    (mu : Quote.Mut6) (n : Nat) (hb : Wire.BodyOk st.chan.cfg.v6 (Quote.quote6 mu d n) m.b)
+    (hfit : (Quote.deliver st.chan.cfg o responder
+        (Quote.icmpMessage st.chan.cfg.v6 m.h m.b (Quote.quote6 mu d n))).length ≤ 1024)
+    (hrd : e.recv.readable = .yes)
+    (hdg : e.recv.dgram = .data responder (Quote.deliver st.chan.cfg o responder
+        (Quote.icmpMessage st.chan.cfg.v6 m.h m.b (Quote.quote6 mu d n)))) :
+    ∃ resp : Resp, resp.addr = Wire.addrNat responder ∧ resp.recv = st.chan.now + e.dt ∧ resp.kind = m.kind ∧
+      ∃ ts2, recvResponse c ts1 e.dt (.resp resp) = .ok ts2 ∧
+        ts2.buffer[p.seq - ts1.roundSeq]? = some (.complete (completeOf c resp p)) ∧
+        (∀ j, j ≠ p.seq - ts1.roundSeq → ts2.buffer[j]? = ts1.buffer[j]?) ∧
+        ∀ (st' : St F) (out : Out), Stack.iter c st e = .ok (st', out) →
+          ∀ r, out.published = some r →
+            r.probes[p.seq - ts1.roundSeq]? = some (.complete (completeOf c resp p)) :=
+  socket_to_round (F := F) hc hs hsend (by rw [hp]; simp) p haw responder _ responder m.kind hfit hrd hdg
+    (C02.icmp_v6 st.chan.cfg c hcs haddr hv hp hsz ts0 ttl p hem hpr k d hd m o responder hr mu n hb
+      (st.chan.now + e.dt))
+
+/-- **Echo Reply from the target (both families), socket to published round**
+(`socket_to_round` ∘ `C02.echo_reply`). -/
+theorem echo_reply_end_to_end {F : Type} [Agg.Num F] {c : Cfg} (hc : CfgOk c) {st : St F}
+    (hs : Reach c st.ts) {e : Env} {ch : Chan.Chan} {ts1 : TS} {sent : List (Probe × SendOutcome)}
+    {calls : List (List Wire.SockOp)}
+    (hsend : sendRequestS c st.chan st.ts e.injs = .ok (ch, ts1, sent, calls))
+    (hcs : C02.Compat st.chan.cfg c) (haddr : st.chan.cfg.AddrOk) (hp : st.chan.cfg.proto = .icmp)
+    (ts0 : TS) (ttl : Nat) (p : Probe) (hem : C11.emitted c ts0 ttl = .ok p) (hpr : Wire.ProbeOk p)
+    (haw : answered ts1 p.seq = some p) (ck n : Nat) (o : Quote.Outer4) (ck0 ck1 : UInt8)
+    (responder src : Buf) (hr : responder.length = if st.chan.cfg.v6 then 16 else 4)
+    (hsrc : st.chan.cfg.v6 = true → src = responder)
+    (hfit : (Quote.echoReply st.chan.cfg o ck0 ck1 responder (Wire.echoPkt st.chan.cfg ck p.ident p.seq n)).length ≤ 1024)
+    (hrd : e.recv.readable = .yes)
+    (hdg : e.recv.dgram = .data src
+      (Quote.echoReply st.chan.cfg o ck0 ck1 responder (Wire.echoPkt st.chan.cfg ck p.ident p.seq n))) :
+    ∃ resp : Resp, resp.addr = Wire.addrNat responder ∧ resp.recv = st.chan.now + e.dt ∧
+      resp.kind = .echoReply 0 ∧
+      ∃ ts2, recvResponse c ts1 e.dt (.resp resp) = .ok ts2 ∧
+        ts2.buffer[p.seq - ts1.roundSeq]? = some (.complete (completeOf c resp p)) ∧
+        (∀ j, j ≠ p.seq - ts1.roundSeq → ts2.buffer[j]? = ts1.buffer[j]?) ∧
+        ∀ (st' : St F) (out : Out), Stack.iter c st e = .ok (st', out) →
+          ∀ r, out.published = some r →
+            r.probes[p.seq - ts1.roundSeq]? = some (.complete (completeOf c resp p)) :=
+  socket_to_round (F := F) hc hs hsend (by rw [hp]; simp) p haw src _ responder (.echoReply 0) hfit hrd hdg
+    (C02.echo_reply st.chan.cfg c hcs haddr hp ts0 ttl p hem hpr ck n o ck0 ck1 responder src hr hsrc
+      (st.chan.now + e.dt))
 
 /-! ## the whole stack never panics (C04 ∘ C09 ∘ C16) -/
 
@@ -833,8 +1013,14 @@ end TV.Props.Stack
 #print axioms TV.Props.Stack.stack_state_is_aggregation
 #print axioms TV.Props.Stack.loop_error_recorded
 #print axioms TV.Props.Stack.loop_no_error
+#print axioms TV.Props.Stack.response_completes_probe
 #print axioms TV.Props.Stack.datagram_completes_probe
+#print axioms TV.Props.Stack.handshake_completes_probe
 #print axioms TV.Props.Stack.icmp_v4_end_to_end
+#print axioms TV.Props.Stack.socket_to_round
+#print axioms TV.Props.Stack.udp_v4_end_to_end
+#print axioms TV.Props.Stack.icmp_v6_end_to_end
+#print axioms TV.Props.Stack.echo_reply_end_to_end
 #print axioms TV.Props.Stack.sendRequestS_no_panic
 #print axioms TV.Props.Stack.iter_never_panics
 #print axioms TV.Props.Stack.loop_never_panics
